@@ -85,7 +85,7 @@ def shrink_text(s, fails):
     return s, best
 
 
-def generic_search(ctx, hints, oracle, gen=None, extra_inputs=()):
+def generic_search(ctx, hints, oracle, gen=None, extra_inputs=(), cand_oracle=None):
     """Search stage: disagreeing inputs, corpus-like extras, then the generators under a budget."""
     fails = []
     tried = 0
@@ -96,7 +96,7 @@ def generic_search(ctx, hints, oracle, gen=None, extra_inputs=()):
     cands.extend(extra_inputs)
     for s in cands:
         tried += 1
-        f = oracle(s)
+        f = oracle(s) or (cand_oracle(s) if cand_oracle else None)     # cand_oracle: for the candidate inputs only
         if f:
             fails.append(f)
             break
